@@ -3,7 +3,7 @@ terms (access paths), condition atoms, pruned reachability, path enumeration."""
 import os
 from functools import lru_cache
 
-from ..frontend import AnalysisBroken
+from ..frontend import AnalysisBroken, REPO
 
 
 class Inst:
@@ -36,7 +36,7 @@ class Inst:
     @property
     def loc(self):
         f = self.lf or self.fn.file
-        return "%s:%d" % (os.path.relpath(f, "/repo") if f.startswith("/repo") else f, self.line)
+        return "%s:%d" % (os.path.relpath(f, REPO) if f.startswith(REPO) else f, self.line)
 
     def __repr__(self):
         return "<%s %%%d %s @%s>" % (self.fn.srcname, self.id, self.op + (":" + self.callee if self.callee else ""), self.loc)
@@ -302,7 +302,7 @@ class Program:
     def own(self, f):
         """cjet's own code (not cJSON / zlib / http_parser / sha1)"""
         p = f.file
-        return p.startswith("/repo/src/") and not any(
+        return p.startswith(REPO + "/src/") and not any(
             x in p for x in ("/json/", "/zlib/", "/http-parser/", "/sha1/", "/tests/"))
 
     def own_functions(self):
